@@ -243,6 +243,12 @@ impl<'a> Interp<'a> {
                     let _ = take_panics();
                     self.out.label("other-key-start-refused");
                 }
+                Err(StartError::Panic(m)) if self.cfg.encryption == 3 => {
+                    // an unusable key (wrong length): the server refuses to start, loudly - the allowed outcome
+                    let _ = take_panics();
+                    let _ = m;
+                    self.out.label("unusable-key-start-refused");
+                }
                 Err(StartError::Panic(m)) => {
                     return Err(self.fail("C19", "other-key-start-panics", format!("start-up under another key panicked: {m}")));
                 }
